@@ -153,7 +153,22 @@ def check_fpga(case):
             bx, by = bt.board_coord(x, y, rx, ry)
             for link in Links:
                 with sut("spinn5_fpga_link"):
+                    # the same chip is first asked about under another root
+                    # (same root_x, other root_y and vice versa): an answer
+                    # must not depend on the question before it
+                    ry2, rx2 = (ry + 5) % 12, (rx + 7) % 12
+                    other = geometry.spinn5_fpga_link(
+                        x, y, link, *((rx, ry2) if (x + y) % 2 else
+                                      (rx2, ry)))
                     got = geometry.spinn5_fpga_link(x, y, link, rx, ry)
+                obx, oby = bt.board_coord(x, y, *((rx, ry2) if (x + y) % 2
+                                                  else (rx2, ry)))
+                require((other is not None) ==
+                        bt.leaves_board(obx, oby, int(link)),
+                        "spinn5_fpga_link reports an FPGA link exactly when "
+                        "the link leaves the board: violated",
+                        {"chip": [x, y], "link": int(link), "got": other,
+                         "root": [rx, ry2] if (x + y) % 2 else [rx2, ry]})
                 off = bt.leaves_board(bx, by, int(link))
                 require((got is not None) == off,
                         "spinn5_fpga_link reports an FPGA link exactly when "
